@@ -6,7 +6,7 @@
    ancestor directories the base also has, or a copy of the base's file with identical bytes. *)
 From AF Require Import Lib.Bytes Lib.Path Lib.Ops Gen.Consts Model.MemFile Model.MemFs Model.WfOps Model.CowView
   Model.ReadOnly Model.Union Model.Cow
-  Proofs.MemFsPath Proofs.MemFsBasics Proofs.MemFsWF Proofs.MemBelow Proofs.MemFsStep Proofs.MemFsInv Proofs.MemFsNoop
+  Proofs.MemFsPath Proofs.MemFsBasics Proofs.MemFsWF Proofs.MemBelow Proofs.MemFsStep Proofs.MemFsInv Proofs.MemFsBelow Proofs.MemFsNoop
   Proofs.PathProof Proofs.CowProof Proofs.CowViewProof Proofs.CopyUpProof Proofs.CowLayer Proofs.CowFileOps Proofs.CopyUpFull Proofs.CowWriteProof.
 From AF Require Proofs.MemCreate.
 Local Open Scope Z_scope.
@@ -209,7 +209,7 @@ Lemma layer_remove_file s name g :
 Proof.
   intros W Hw nn Hroot Hl (n & Hn & Hd). pose proof (wf_name_canon name Hw) as Hc. fold nn in Hc.
   assert (HWF : WF (fst (m_step s (Remove name)))).
-  { apply WF_step; [exact W|]. cbn [wf_op]. rewrite Hw. fold nn. unfold kind_at. rewrite Hl, Hn, Hd.
+  { apply WF_step; [exact W|]. apply wf_op_of_ord. cbn [wf_op_ord]. rewrite Hw. fold nn. unfold kind_at. rewrite Hl, Hn, Hd.
     assert (E : beqb nn s_slash = false) by now apply beqb_neq. rewrite E. reflexivity. }
   rewrite m_step_tick in *. cbn [m_step_raw] in *. unfold m_remove in *. fold nn in HWF |- *. rewrite Hl in *.
   destruct (GWF_unregister kempty kempty kempty s nn g W Hl (WF_fresh s nn g W Hl) Hroot) as (q & qn & Hq & Hqn & Hqd & Hun & _);
@@ -780,7 +780,7 @@ Proof.
         destruct (m_step (tick sl) (Rename p q)) as [sl2 r2]. cbn [ret fst snd] in *. now apply Hx.
       + destruct (lookup sb (normalize_path p)); [reflexivity|].
         rewrite m_step_tick. cbn [m_step_raw]. unfold m_rename. change (lookup (tick sl) (normalize_path p)) with (lookup sl (normalize_path p)).
-        rewrite Hl. reflexivity.
+        rewrite Hl. match goal with |- context [if ?c then _ else _] => destruct c end; reflexivity.
     - (* Stat *)
       apply absorbed_view. pose proof (layer_stat_view sl p) as Hx. destruct (m_step sl (Stat p)) as [sl1 r]. cbn [fst] in Hx.
       destruct r; cbn [ret fst snd]; try exact Hx;
@@ -965,7 +965,8 @@ Qed.
 
 Lemma m_rename_handles s p q : mhandles (fst (m_rename s p q)) = mhandles s.
 Proof.
-  unfold m_rename. destruct (lookup s (normalize_path p)) as [f|]; [|reflexivity].
+  unfold m_rename. destruct (lookup s (normalize_path p)) as [f|];
+    [|match goal with |- context [if ?c then _ else _] => destruct c end; reflexivity].
   destruct (beqb (normalize_path p) (normalize_path q)); [reflexivity|].
   destruct (below_file s (normalize_path q)); [reflexivity|].
   destruct (unregister s (normalize_path p)) as [[s1 [|]]|] eqn:E; [| |reflexivity].
